@@ -140,7 +140,7 @@ CLAIMS['C14']['text'] = ('Theorems (native_decide, complete source spaces) on th
     'against the exact-sum oracle (hand model pinned by source hash); generic-to-generic (PxE2<N>::from_pxe1<M> / from_pxe2<M>, PxE1<N>::from_pxe2<M>, their to_* and From spellings): theorems px2_from_px1 / px1_from_px2 / px2_from_px2 (every source width 2..=13, all patterns, into EVERY target width 2..=32; native_decide) and symbolic forwarding theorems for the spellings; wider sources by correspondence for all 31 target widths x 17 source widths with target-boundary sources (one defect found and repaired, known_findings.json). Open findings by call site: from-integer conversions of PxE1, PxE2::from_i64 / from_i32.')
 CLAIMS['C15']['text'] += (' ADDED: theorem C15.pi_split_close (the regenerated constants PI_A + PI_B + PI_C are within 2e-20 of Real.pi; kernel evaluation + Mathlib pi bounds); the streams contain the 3000 worst-case '
     'argument-reduction inputs (all ~250000 multiples of pi/2 scanned) and a sign-logic / special-case stream for powf outside the box [0.5,5)^2 (gross correctness only there). Open finding POWF-6ULP (5 pairs in 13.5 million at 6 ulp).')
-CLAIMS['C17']['text'] = ('398 symbolic forwarding theorems (Props/C17Fwd.lean, no enumeration, axioms propext/Quot.sound): every operator trait, op-assign form, From/Into impl, EVERY method of the num_traits Float/Signed/FloatConst/Bounded/Zero/One/ToPrimitive/FromPrimitive impls (except the two todo!() bodies Float::abs_sub and integer_decode) and every Quire trait method '
+CLAIMS['C17']['text'] = ('405 symbolic forwarding theorems (Props/C17Fwd.lean, no enumeration, axioms propext/Quot.sound): every operator trait, op-assign form, From/Into impl, EVERY method of the num_traits Float/Signed/FloatConst/Bounded/Zero/One/ToPrimitive/FromPrimitive impls (except the two todo!() bodies Float::abs_sub and integer_decode) and every Quire trait method '
     '(Q8E0, Q16E1, Q32E2 for P32E2 and for PxE2<N>) equals the inherent operation for EVERY input / quire state. ' + _FIN +
     'Here: the num_traits Signed/Zero/One/Float spellings and the op-assign forms against the Spec of the inherent operation. ' + _WIDE +
     ' A pairwise agreement stream compares spelled and inherent operations on identical inputs. NumCast::from<N> and from_str_radix are not modelled (foreign generics / parsing).')
